@@ -103,7 +103,7 @@ def process_failures(pid, tier, seed, spaces, aggs):
                 desc, path, exp, obs = f
                 bkey = (sp.name, _re.sub(r'\d+', 'N', path))
                 bulk_seen[bkey] = bulk_seen.get(bkey, 0) + 1
-                if bulk_seen[bkey] > 3:
+                if bulk_seen[bkey] > 3 and not getattr(sp, 'report_all', False):
                     continue
                 labels = [str(desc)]
                 choices = None
